@@ -6,7 +6,7 @@ From Coq Require Import Permutation Sorted.
 From Mokaverif Require Import Model.Base Model.Tdc Model.Calibrate Model.PinCols Model.Brew Model.Merge
   Model.Confidence Model.Orders Model.Chunks Model.Readers.
 From Mokaverif Require Import Proofs.PinColsP Proofs.BrewP Proofs.ConfidenceP Proofs.OrdersP Proofs.ReadersP
-  Proofs.MergeP.
+  Proofs.MergeP Proofs.BrewEnsP.
 Open Scope nat_scope.
 
 (* confidence chunk size: the level files (hence every result file) are the same for all chunk sizes *)
@@ -56,6 +56,38 @@ Theorem C05_merge_inputs : forall (row : Type) (score : row -> Z) inputs,
   Permutation (mg_merge_all score inputs) (concat inputs).
 Proof. exact mg_merge_all_perm. Qed.
 Print Assumptions C05_merge_inputs.
+
+(* brew(ensemble=True) (R2.22): prediction chunk size — every model scores every chunk, the per-model lists are
+   stacked over the chunks, the k stacked rows are averaged: the same scores for all chunk sizes *)
+Theorem C05_ensemble_chunk : forall c c' k keys fitted, 1 <= c -> 1 <= c' ->
+  bw_brew_scores_ens c k keys fitted = bw_brew_scores_ens c' k keys fitted.
+Proof. exact brew_ens_chunk_independent. Qed.
+Print Assumptions C05_ensemble_chunk.
+
+(* ... and the order in which the fitted models (fold number, decision values) are delivered: they are sorted
+   by fold before they are averaged *)
+Theorem C05_ensemble_models_order : forall c k keys fitted fitted',
+  Permutation fitted fitted' -> NoDup (map fst fitted) ->
+  bw_brew_scores_ens c k keys fitted = bw_brew_scores_ens c k keys fitted'.
+Proof. exact brew_ens_delivery_order_free. Qed.
+Print Assumptions C05_ensemble_models_order.
+
+(* the chunk-free reading of the ensemble score: (sum over the models of their raw decision value) / #models *)
+Theorem C05_ensemble_spec : forall c n raws out, 1 <= c -> bw_predict_ens c n raws = Ok out ->
+  raws <> [] /\ 0 < n /\ Forall (fun rm => length rm = n) raws /\ length out = n /\
+  forall r, r < n ->
+    nth r out 0%Q = bw_ens_mean (length raws) (ens_zsum (map (fun rm => nth r rm 0%Z) raws)).
+Proof. exact ens_predict_spec. Qed.
+Print Assumptions C05_ensemble_spec.
+
+Example C05_ensemble_example :
+  let keys := [5;3;5;9;3;5;1]%Z in
+  let A := [9;8;7;6;5;4;3]%Z in let B := [1;2;3;4;5;6;7]%Z in let C := [2;2;2;2;9;9;9]%Z in
+  bw_brew_scores_ens 2 3 keys [(3, C); (1, A); (2, B)] = Ok [12#3; 12#3; 12#3; 12#3; 19#3; 19#3; 19#3]%Q /\
+  bw_brew_scores_ens 7 3 keys [(1, A); (2, B); (3, C)] = bw_brew_scores_ens 1 3 keys [(2, B); (3, C); (1, A)] /\
+  bw_predict_ens 2 0 [A] = Err EValue /\ bw_predict_ens 2 7 [] = Err EType /\
+  bw_brew_scores_ens 2 3 [5;5;5;5]%Z [(1, [1;1;1;1]%Z)] = Err EIndex.
+Proof. vm_compute. repeat split. Qed.
 
 Example C05_example :
   or_parse nat 2 (@rev _) [4;0;3] [10;11;12;13;14] = [Some 14; Some 10; Some 13] /\
